@@ -49,6 +49,16 @@ KEEP = [
     ("all_slices", "let kept = world.arch_foo.get_all_slices_mut();", "kept.comp_a[0].0 += 1;"),
     ("component_ref", "let kept: &CompA = &world.arch_foo.get_slice::<CompA>()[0];", "let _ = kept.0;"),
     ("archetype_ref", "let kept = world.archetype::<ArchFoo>();", "let _ = kept.len();"),
+    # the storage itself is reachable through the public (doc(hidden)) `data` field
+    ("storage_iter", "let mut kept = world.arch_foo.data.iter();", "let _ = kept.next();"),
+    ("storage_iter_item", "let kept = world.arch_foo.data.iter().next().unwrap();", "let _ = kept.1 .0;"),
+    ("storage_iter_mut_item", "let kept = world.arch_foo.data.iter_mut().next().unwrap();", "kept.2 .0 += 1;"),
+    ("storage_get_slice", "let kept = world.arch_foo.data.get_slice_0();", "let _ = kept[0].0;"),
+    ("storage_get_slice_mut", "let kept = world.arch_foo.data.get_slice_mut_1();", "kept[0].0 += 1;"),
+    ("storage_borrow_slice", "let kept = world.arch_foo.data.borrow_slice_0();", "let _ = kept[0].0;"),
+    ("storage_entities", "let kept = world.arch_foo.data.get_slice_entities();", "let _ = kept[0];"),
+    ("storage_begin_borrow", "let kept = world.arch_foo.data.begin_borrow(e).unwrap();", "let _ = kept.borrow_component_0().0;"),
+    ("storage_view", "let kept: <ArchFoo as Archetype>::View<'_> = world.arch_foo.data.get_view_mut(e).unwrap();", "kept.comp_a.0 += 1;"),
 ]
 
 # structural changes of the archetype the kept thing points into
